@@ -232,9 +232,8 @@ func (f *frame) libCall(callee *ssa.Function, c *ssa.CallCommon, base string, re
 	for _, a := range c.Args {
 		f.escape(a)
 	}
-	f.recordCallThrow(name, pos)
 	f.havocKeys(w)
-	e.note("external call " + name + ": result havocked (no model)")
+	e.note("external call " + name + ": result havocked (no model); assumed not to panic")
 	return f.resultHavoc(base, resT)
 }
 
